@@ -25,7 +25,7 @@ echo "import: $IMPORT"; echo "tests with change: $TESTS"; echo "demo without cha
 # (SCRATCH=1: on a scratch copy instead, for use while other work is reading /repo; tools/seed_matrix.sh does the real thing later)
 DET=""
 if [ "${SCRATCH:-0}" = "1" ]; then
-  T=$(mktemp -d /dev/shm/sa_seed.XXXXXX); cp -r /repo/norminette "$T/norminette"; find "$T" -name __pycache__ -prune -exec rm -rf {} +
+  T=$(mktemp -d /dev/shm/sa_seed.XXXXXX); git -C /repo archive HEAD norminette | tar -x -C "$T"; find "$T" -name __pycache__ -prune -exec rm -rf {} +
   (cd "$T" && patch -s -p1 < "$OUT/patch.diff") || { echo "cannot apply to the copy"; exit 3; }
   for c in "$PROP" "$@"; do
     SA_REPO="$T" SA_EVIDENCE_DIR=/tmp/ev_$ID /venv/bin/python -m sa check "$c" > "$OUT/check_$c.log" 2>&1; rc=$?
